@@ -548,7 +548,7 @@ func (e *Env) evalQuant(x *EQuant) Val {
 		name := u.freshName("q_" + b.Name)
 		name = strings.ReplaceAll(name, "!", "_")
 		switch b.Kind {
-		case "dom":
+		case "dom", "set":
 			m := env.eval(b.A)
 			var dom Term
 			var kt types.Type
@@ -592,6 +592,9 @@ func (e *Env) evalQuant(x *EQuant) Val {
 			decls = append(decls, fmt.Sprintf("(%s %s)", name, so))
 			kv := Term{name, so}
 			if ty != nil {
+				if b, isB := ty.Underlying().(*types.Basic); isB && b.Info()&types.IsInteger != 0 {
+					guards = append(guards, u.typeFacts(env.cur, kv, ty))
+				}
 				if _, isPtr := ty.Underlying().(*types.Pointer); isPtr {
 					// quantification over pointers ranges over allocated objects
 					guards = append(guards, App(SBool, "<", IntN(0), kv), App(SBool, "<", kv, u.top(env.cur)))
@@ -696,6 +699,11 @@ func (e *Env) evalCall(x *ECall) Val {
 	case "tagof":
 		v := e.eval(x.Args[0])
 		return spec(App(SInt, "itag", v.T))
+	case "boxed":
+		// boxed(T, v): the interface value holding v with dynamic type T
+		t := e.resolveType(x.Args[0].exprString())
+		v := e.eval(x.Args[1])
+		return Val{T: reg.MkIface(t, v.T)}
 	case "emptyset":
 		so, _ := e.sortOfName(x.Args[0].exprString())
 		return Val{T: ConstArray(ArraySort(so, SBool), TFalse), isDom: true}
@@ -811,9 +819,13 @@ func (e *Env) evalMethod(sel *ESel, args []Expr) Val {
 	// pure evaluation on a scratch copy of the state; safety obligations inside are dropped
 	st := e.cur.clone()
 	u.dry++
+	u.pure++
 	nObs := len(u.obs)
-	exits := u.execRegion(nf, fn.Blocks[0], nil, st, nil)
-	u.dry--
+	savedPos := u.curPos
+	exits := func() []exit {
+		defer func() { u.dry--; u.pure--; u.curPos = savedPos }()
+		return u.execRegion(nf, fn.Blocks[0], nil, st, nil)
+	}()
 	u.obs = u.obs[:nObs]
 	if len(exits) == 0 {
 		e.fail("method %s never returns", sel.Name)
